@@ -1,5 +1,94 @@
-use serde_json::Value;
+use serde_json::{json, Value};
+use std::sync::atomic::{AtomicUsize, Ordering};
+use std::sync::{Arc, Mutex};
+use std::time::Duration;
+use text_utils::data::loading::{BufferedIterator, PipelineIterator};
 
-pub fn dispatch(op: &str, _req: &Value) -> Result<Value, String> {
-    Err(format!("unknown op {op}"))
+struct Counting {
+    next: usize,
+    n: usize,
+    pulled: Arc<AtomicUsize>,
+}
+
+impl Iterator for Counting {
+    type Item = usize;
+    fn next(&mut self) -> Option<usize> {
+        if self.next >= self.n {
+            return None;
+        }
+        self.pulled.fetch_add(1, Ordering::SeqCst);
+        self.next += 1;
+        Some(self.next - 1)
+    }
+}
+
+fn usizes(v: &Value) -> Vec<u64> {
+    v.as_array().map(|a| a.iter().map(|x| x.as_u64().unwrap_or(0)).collect()).unwrap_or_default()
+}
+
+pub fn dispatch(op: &str, req: &Value) -> Result<Value, String> {
+    match op {
+        "pipe_run" | "buffered_run" => {
+            let n = req["n"].as_u64().ok_or("n")? as usize;
+            let w = req["w"].as_u64().unwrap_or(1) as u8;
+            let delays = usizes(&req["delays_ms"]);
+            let consume = req["consume"].as_i64().unwrap_or(-1);
+            let then = req["then"].as_str().unwrap_or("drain").to_string();
+            let settle = req["settle_ms"].as_u64().unwrap_or(300);
+            let panic_at = req["panic_at"].as_i64().unwrap_or(-1);
+            let pulled = Arc::new(AtomicUsize::new(0));
+            let processed = Arc::new(Mutex::new(vec![0usize; n.min(64)]));
+            let src = Counting { next: 0, n, pulled: pulled.clone() };
+            let mut outputs: Vec<usize> = vec![];
+            let mut ended = false;
+            let proc2 = processed.clone();
+            let f = Arc::new(move |i: usize| {
+                if let Some(d) = delays.get(i) {
+                    if *d > 0 {
+                        std::thread::sleep(Duration::from_millis(*d));
+                    }
+                }
+                if panic_at >= 0 && i as i64 == panic_at {
+                    panic!("processing function panicked (verification replay)");
+                }
+                if let Ok(mut p) = proc2.lock() {
+                    if i < p.len() {
+                        p[i] += 1;
+                    }
+                }
+                i
+            });
+            let mut it: Box<dyn Iterator<Item = usize>> = if op == "pipe_run" {
+                Box::new(src.pipe(f, w))
+            } else {
+                Box::new(src.map(move |i| f(i)).buffered(req["buffer"].as_u64().unwrap_or(1) as usize))
+            };
+            let mut k = 0i64;
+            while consume < 0 || k < consume {
+                match it.next() {
+                    Some(v) => outputs.push(v),
+                    None => {
+                        ended = true;
+                        break;
+                    }
+                }
+                k += 1;
+            }
+            let pulled_at_action = pulled.load(Ordering::SeqCst);
+            if then == "drop" {
+                drop(it);
+                std::thread::sleep(Duration::from_millis(settle));
+            } else if then == "idle" {
+                std::thread::sleep(Duration::from_millis(settle));
+                std::mem::forget(it);
+            } else {
+                drop(it);
+            }
+            let pulled_end = pulled.load(Ordering::SeqCst);
+            let p = processed.lock().map(|p| p.clone()).unwrap_or_default();
+            Ok(json!({"outputs": outputs, "ended": ended, "pulled_at_action": pulled_at_action, "pulled_end": pulled_end,
+                      "processed": p}))
+        }
+        _ => crate::ops13::dispatch(op, req),
+    }
 }
